@@ -55,7 +55,8 @@ ASSUMPTIONS = [
 
 BOTH = ('unknown-fn', 'xlfn', 'xlfn-like-known', 'undefined-name', 'ref-literal',
         'ref-literal-arg', 'unknown-fn-nested', 'name-unknown-fn',
-        'ref-literal-prefixed')
+        'ref-literal-prefixed', 'ref-literal-operand', 'name-ref-literal-operand')
+ANY_ERROR = {'#REF!', '#VALUE!', '#NULL!', '#NAME?'}
 FILES = ('missing-sheet', 'missing-sheet-range', 'missing-book', 'empty-file',
          'truncated-file', 'directory', 'garbage-file', 'name-missing-sheet',
          'link-index')
@@ -111,6 +112,18 @@ def fault_tree(kind, rng, desc, b):
                 bk, own.replace("'", "''")), "'[1]My Sheet'!#REF!", '[1]Sheet1!#REF!'))
         t = ['raw', text, text]
         return (t if rng.random() < 0.5 else ['bin', '+', t, arg]), {'#REF!'}
+    if kind in ('ref-literal-operand', 'name-ref-literal-operand'):
+        # #REF! as an operand of a reference operator (what is left of
+        # (A1:A2,C1:C2) when the second area is deleted)
+        own = desc['books'][b]['sheets'][0]['name']
+        sid = gw.sheet_id(bk, own)
+        full = rng.choice(('(%s!A1:A2,#REF!)', '%s!A1:A2 #REF!', '%s!A1:#REF!',
+                           '(#REF!,%s!B1)')) % sid
+        if kind == 'name-ref-literal-operand':
+            nm = 'AREAS%d' % (len(desc['names']) + 1)
+            desc['names'][nm] = ['val', b, ['raw', full, full]]
+            return ['call', 'SUM', [['name', nm]]], ANY_ERROR
+        return ['call', 'SUM', [['raw', full, full]]], ANY_ERROR
     if kind == 'ref-literal-arg':
         return ['call', 'SUM', [['err', '#REF!'], arg]], {'#REF!'}
     if kind == 'missing-sheet':
